@@ -83,6 +83,21 @@ def gen_source(i):
     return lang, shape, '\n'.join(out).encode()
 
 
+def cmtcol_source(c, d):
+    def at(code, col, cmt):
+        return code + ' ' * max(1, col - 1 - len(code)) + cmt
+    L = ['void f(void)', '{',
+         at('   int a;', c, '// first line of the remark'),
+         ' ' * (c + d - 1) + '// the remark continues here',
+         '   int bcdefghij; // another remark',
+         '   if (a)', '   {',
+         at('      int q;', c + 3, '/* inner remark */'),
+         ' ' * (c + 3 + d - 1) + '/* it continues */',
+         '      int longer_name_here; /* other */',
+         '   }', '}', '']
+    return '\n'.join(L).encode()
+
+
 def _gen_pair(t):
     prof, i = t
     lang, shape, x = gen_source(i)
@@ -175,6 +190,24 @@ def check(ctx):
             ctx.violation('%s-host|%s|%s' % (verdict, prof, rel), '%s: profile %s, %s: %s' % (verdict, prof, rel, detail),
                           files={'profile.cfg': profile_text(prof), 'input': MOD_HOSTS[rel[5:]], 'pass1': out},
                           argv=['uncrustify', '-c', 'profile.cfg', '-f', 'pass1'])
+    # a trailing comment at every column with a continuation comment line below it at every small offset, next to a longer line
+    # with its own trailing comment (the trailing-comment aligner and the whole-line comment indenter meet here) x profiles
+    csel = []
+    for c in range(2, 31):
+        for d in (-3, -2, -1, 0, 1, 2, 3):
+            if c + d < 1:
+                continue
+            csel.extend((prof, 'cmtcol:%d:%+d' % (c, d), 'C', cmtcol_source(c, d)) for prof in PROFILES)
+    for prof, rel, verdict, detail, out in pmap(_pair, csel):
+        ctx.evaluations += 1
+        ctx.count('cmtcol_' + verdict)
+        if verdict == 'ok':
+            ctx.nt(prof, rel)
+        elif verdict in ('unstable', 'second-pass-refused', 'check-fails'):
+            _, c, d = rel.split(':')
+            ctx.violation('%s-cmtcol|%s|%s|%s' % (verdict, prof, c, d), '%s: profile %s, trailing comment at column %s with a continuation line at offset %s: %s' % (
+                verdict, prof, c, d, detail), files={'profile.cfg': profile_text(prof), 'input': cmtcol_source(int(c), int(d)), 'pass1': out},
+                argv=['uncrustify', '-c', 'profile.cfg', '-f', 'pass1'])
     weak = [t for t in corpus.tests() if t[3]]
     wsel = sr.sample(weak, 800) if quick else weak
     for tid, verdict, detail in pmap(_weak, wsel):
